@@ -4,6 +4,10 @@
 // and prints ONE line per case in the canonical form of ml/C15_driver.ml (no addresses):
 //   pool/pa : G<unionSize>,<size>,<alignment>,<alignedSize>,<chunkSize>,<elements>  c<chunk#>+<offset> | bad_alloc | F ...  D<bytes>:<released chunk#s>
 //   malloc/aligned : ok | bad_alloc | F          debug : ok:o<ptr mod page> | bad_alloc | F | ABORT(msg)
+// Further ops: z<i>.<n> deallocate(p_i, n) (Z = no-op), x / y release of a null / foreign pointer, k0/k1/k2 copy / converting construction /
+// rebind (K), b<i>.<k> debug-allocator misuse (must ABORT); kinds dman (AllocationManager used directly, destructor at the end),
+// debugkeep (only in the -DDEBUG_ALLOCATOR_KEEP=1 build), api (max_size, operator==/!=, rebind), alignedbase (AlignedBase placement new).
+// Blocks are filled through construct() / checked with address() / released after destroy() wherever the allocator has them.
 // A token gets a !flag when the harness itself sees an address-level failure (misaligned, overlap with a live
 // block, outside every chunk, tag corrupted, not writable, no guard page, still mapped after release).
 // Chunk allocations are identified by replacing the global operator new/delete (recording only while an
@@ -39,18 +43,28 @@
 
 // ------------------------------------------------------------------ operator new recorder
 namespace rec {
-  struct R { char* p; std::size_t size; std::size_t align; bool live; };
+  struct R { char* p; std::size_t size; std::size_t align; bool live; bool foreign; int num; };
   static R tab[4096];
   static int n = 0;
+  static int nown = 0;            // chunks of the allocator under test (numbered 0,1,..)
   static int released[4096];
   static int nreleased = 0;
+  static int foreign_live = 0;    // chunks obtained by copies / rebound allocators and not yet returned
   static bool on = false;
+  static bool foreign = false;    // record the following allocations as belonging to a copy
   static bool overflow = false;
   static void add(void* p, std::size_t size, std::size_t align) {
-    if (n < 4096) { tab[n].p = (char*)p; tab[n].size = size; tab[n].align = align; tab[n].live = true; ++n; } else overflow = true;
+    if (n < 4096) {
+      tab[n].p = (char*)p; tab[n].size = size; tab[n].align = align; tab[n].live = true; tab[n].foreign = foreign;
+      tab[n].num = foreign ? -1 : nown++; if (foreign) ++foreign_live; ++n;
+    } else overflow = true;
   }
   static void del(void* p) {
-    for (int i = 0; i < n; ++i) if (tab[i].p == (char*)p && tab[i].live) { tab[i].live = false; if (nreleased < 4096) released[nreleased++] = i; return; }
+    for (int i = 0; i < n; ++i) if (tab[i].p == (char*)p && tab[i].live) {
+      tab[i].live = false;
+      if (tab[i].foreign) --foreign_live; else if (nreleased < 4096) released[nreleased++] = tab[i].num;
+      return;
+    }
     if (nreleased < 4096) released[nreleased++] = -1;     // delete of something that is not a live chunk
   }
   static int find(const void* q) {
@@ -93,10 +107,20 @@ static void emit(const std::string& tok) {
 }
 
 // ------------------------------------------------------------------ element types
-template<std::size_t S, std::size_t A> struct alignas(A) Blob { unsigned char d[S]; };
+// S bytes, alignment A; copy construction / construction from a tag byte / destruction are counted
+static long g_ctor = 0, g_dtor = 0;
+template<std::size_t S, std::size_t A> struct alignas(A) Blob {
+  unsigned char d[S];
+  Blob() = default;
+  explicit Blob(unsigned char t) { std::memset(d, t, S); ++g_ctor; }
+  Blob(const Blob& o) { std::memcpy(d, o.d, S); ++g_ctor; }
+  ~Blob() { ++g_dtor; }
+};
+struct OtherType { long x; };          // "wrong type" for DebugAllocator misuse, value type of converted / rebound allocators
 
-struct Op { char k; unsigned long long n; };
+struct Op { char k; unsigned long long n, m; };
 struct LiveBlk { char* p; unsigned long long bytes; unsigned char tag; unsigned long long n; bool tagged; };
+static std::vector<LiveBlk>* g_live = nullptr;
 
 static bool overlaps(const std::vector<LiveBlk>& live, const char* p, unsigned long long bytes) {
   if (bytes == 0) return false;
@@ -110,29 +134,83 @@ static bool tag_ok(const LiveBlk& b) {
 }
 static unsigned char g_tagctr = 0;
 static unsigned char next_tag() { g_tagctr = (unsigned char)(g_tagctr % 250 + 1); return g_tagctr; }
+static unsigned g_alt = 0;               // alternates between overloads (hint / no hint, construct(const T&) / construct(Args...))
+alignas(64) static char g_foreign_buf[256];   // "a pointer that never came from the allocator"
+
+// construct one T at p through the allocator (alternating the two overloads where both exist) and check it landed at p
+template<class A, class T> static std::string do_construct(A& a, T* p, unsigned char tag) {
+  std::string fl; long c0 = g_ctor;
+  if ((g_alt++ & 1) == 0) { T v(tag); a.construct(p, v); }       // construct(pointer, const T&)
+  else {
+    if constexpr (requires { a.construct(p, tag); }) a.construct(p, tag);   // construct(pointer, Args&&...)
+    else { T v(tag); a.construct(p, v); }
+  }
+  if (g_ctor == c0) fl += "!construct";
+  for (std::size_t i = 0; i < sizeof(T); ++i) if (((unsigned char*)p)[i] != tag) { fl += "!construct-misplaced"; break; }
+  const T& cr = *p;
+  if (a.address(*p) != p || a.address(cr) != p) fl += "!address";
+  return fl;
+}
+template<class A, class T> static std::string do_destroy(A& a, T* p) {
+  long d0 = g_dtor; a.destroy(p);
+  return g_dtor == d0 + 1 ? "" : "!destroy";
+}
 
 // ------------------------------------------------------------------ pool runner (type-erased)
 struct PoolVT {
-  long geom[6]; std::size_t sT, aT, objsize, objalign;
-  void (*create)(void*); void* (*alloc)(void*, std::size_t); void (*dealloc)(void*, void*); void (*destroy)(void*);
+  long geom[6]; std::size_t sT, aT, objsize, objalign; bool is_pa;
+  void (*create)(void*); void* (*alloc)(void*, std::size_t); void (*dealloc)(void*, void*, std::size_t); void (*destroy)(void*);
+  std::string (*construct)(void*, void*, unsigned char); std::string (*destruct)(void*, void*);
+  std::string (*copy_probe)(void*, int); int (*print_tokens)(void*);
 };
 template<class T, std::size_t S> PoolVT vt_pool() {
   using P = Dune::Pool<T, S>;
-  PoolVT v{{P::unionSize, P::size, P::alignment, P::alignedSize, P::chunkSize, P::elements}, sizeof(T), alignof(T), sizeof(P), alignof(P),
+  PoolVT v{{P::unionSize, P::size, P::alignment, P::alignedSize, P::chunkSize, P::elements}, sizeof(T), alignof(T), sizeof(P), alignof(P), false,
     [](void* b) { new (b) P; },
     [](void* s, std::size_t n) -> void* { if (n != 1) throw std::bad_alloc(); return ((P*)s)->allocate(); },
-    [](void* s, void* p) { ((P*)s)->free(p); },
-    [](void* s) { ((P*)s)->~P(); }};
+    [](void* s, void* p, std::size_t) { ((P*)s)->free(p); },
+    [](void* s) { ((P*)s)->~P(); },
+    [](void*, void* p, unsigned char tag) -> std::string { std::memset(p, tag, sizeof(T)); return ""; },
+    [](void*, void*) -> std::string { return ""; },
+    [](void*, int) -> std::string { return "NO-COPY"; },
+    [](void* s) -> int { std::ostringstream os; ((P*)s)->print(os); std::istringstream is(os.str()); std::string t; int k = 0; while (is >> t) ++k; return k; }};
   return v;
+}
+// allocate one block from a copy / converted / rebound allocator: it must come from a chunk of its own
+template<class C> static std::string probe_copy(C& c) {
+  using U = typename C::value_type;
+  std::string fl;
+  U* q = c.allocate(1);
+  int r = rec::find(q);
+  if (r < 0) fl += "!outside";
+  else { if (!rec::tab[r].foreign) fl += "!shares-pool"; if ((char*)q != rec::tab[r].p) fl += "!not-first-slot"; }
+  if ((std::uintptr_t)q % alignof(U)) fl += "!misaligned";
+  if (g_live && overlaps(*g_live, (char*)q, sizeof(U))) fl += "!overlap";
+  std::memset((void*)q, 0x5a, sizeof(U));
+  c.deallocate(q, 1);
+  return fl;
 }
 template<class T, std::size_t s> PoolVT vt_pa() {
   using A = Dune::PoolAllocator<T, s>;
   using P = typename A::PoolType;
-  PoolVT v{{P::unionSize, P::size, P::alignment, P::alignedSize, P::chunkSize, P::elements}, sizeof(T), alignof(T), sizeof(A), alignof(A),
+  PoolVT v{{P::unionSize, P::size, P::alignment, P::alignedSize, P::chunkSize, P::elements}, sizeof(T), alignof(T), sizeof(A), alignof(A), true,
     [](void* b) { new (b) A; },
-    [](void* self, std::size_t n) -> void* { return ((A*)self)->allocate(n); },
-    [](void* self, void* p) { ((A*)self)->deallocate((T*)p, 1); },
-    [](void* self) { ((A*)self)->~A(); }};
+    [](void* self, std::size_t n) -> void* { return (g_alt++ & 1) ? ((A*)self)->allocate(n) : ((A*)self)->allocate(n, (const T*)g_foreign_buf); },
+    [](void* self, void* p, std::size_t n) { ((A*)self)->deallocate((T*)p, n); },
+    [](void* self) { ((A*)self)->~A(); },
+    [](void* self, void* p, unsigned char tag) -> std::string { return do_construct(*(A*)self, (T*)p, tag); },
+    [](void* self, void* p) -> std::string { return do_destroy(*(A*)self, (T*)p); },
+    [](void* self, int k) -> std::string {
+      A& a = *(A*)self; std::string fl;
+      rec::foreign = true;
+      if (k == 0) { A c(a); fl = probe_copy(c); }                                                   // copy constructor
+      else if (k == 1) { Dune::PoolAllocator<OtherType, 3> o; A c(o); fl = probe_copy(c); }          // converting constructor
+      else { typename A::template rebind<OtherType>::other r(a); fl = probe_copy(r); }              // rebind + converting constructor
+      rec::foreign = false;
+      if (rec::foreign_live != 0) fl += "!copy-leaks";
+      return fl;
+    },
+    [](void*) -> int { return -1; }};
   return v;
 }
 
@@ -142,7 +220,7 @@ static void run_pool(const PoolVT& v, const std::vector<Op>& ops) {
   alignas(64) static char buf[256];
   if (v.objsize > sizeof buf) { emit("HARNESS-OBJECT-TOO-BIG"); return; }
   v.create(buf);
-  std::vector<LiveBlk> live; live.reserve(ops.size() + 1);
+  std::vector<LiveBlk> live; live.reserve(ops.size() + 1); g_live = &live;
   for (const Op& op : ops) {
     if (op.k == 'a') {
       void* p = nullptr; std::string tok;
@@ -152,42 +230,57 @@ static void run_pool(const PoolVT& v, const std::vector<Op>& ops) {
       if (tok.empty()) {
         int c = rec::find(p);
         char t[96];
-        if (c < 0) { std::snprintf(t, sizeof t, "c?+?!outside"); tok = t; }
+        if (c < 0 || rec::tab[c].foreign) { std::snprintf(t, sizeof t, "c?+?!outside"); tok = t; c = -1; }
         else {
-          std::snprintf(t, sizeof t, "c%d+%zu", c, (std::size_t)((char*)p - rec::tab[c].p)); tok = t;
+          std::snprintf(t, sizeof t, "c%d+%zu", rec::tab[c].num, (std::size_t)((char*)p - rec::tab[c].p)); tok = t;
           if ((char*)p + v.sT > rec::tab[c].p + rec::tab[c].size) tok += "!outside";
         }
         if ((std::uintptr_t)p % v.aT != 0 || !Dune::isAligned(p, v.aT)) tok += "!misaligned";
         if (overlaps(live, (char*)p, v.sT)) tok += "!overlap";
         LiveBlk b{(char*)p, v.sT, next_tag(), op.n, c >= 0};
-        if (b.tagged) std::memset(p, b.tag, v.sT);           // writable over the whole extent
+        if (b.tagged) tok += v.construct(buf, p, b.tag);       // writable over the whole extent, through construct() where it exists
         live.push_back(b);
       }
       emit(tok);
-    } else {
+    } else if (op.k == 'f' || op.k == 'z') {
       if (op.n >= live.size()) { emit("BADCASE"); continue; }
       LiveBlk b = live[op.n];
-      std::string tok = "F";
+      std::size_t cnt = op.k == 'f' ? 1 : (std::size_t)op.m;
+      std::string tok = cnt == 0 ? "Z" : "F";
       if (!tag_ok(b)) tok += "!corrupt";
-      live.erase(live.begin() + op.n);
+      if (cnt != 0) { if (b.tagged) tok += v.destruct(buf, b.p); live.erase(live.begin() + op.n); }
       rec::on = true;
-      try { v.dealloc(buf, b.p); } catch (std::bad_alloc&) { tok = "bad_alloc"; } catch (...) { tok = "EXC-other"; }
+      try { v.dealloc(buf, b.p, cnt); } catch (std::bad_alloc&) { tok = "bad_alloc"; } catch (...) { tok = "EXC-other"; }
       rec::on = false;
       emit(tok);
-    }
+    } else if (op.k == 'x' || op.k == 'y') {
+      std::string tok = "NOT-REFUSED";
+      rec::on = true;
+      try { v.dealloc(buf, op.k == 'x' ? nullptr : (void*)g_foreign_buf, 1); } catch (std::bad_alloc&) { tok = "bad_alloc"; } catch (...) { tok = "EXC-other"; }
+      rec::on = false;
+      emit(tok);
+    } else if (op.k == 'k') {
+      rec::on = true;
+      std::string fl;
+      try { fl = v.copy_probe(buf, (int)op.n); } catch (...) { fl = "!exception"; }
+      rec::on = false; rec::foreign = false;
+      emit("K" + fl);
+    } else emit("BADCASE");
   }
   bool corrupt = false;
   for (auto& b : live) if (!tag_ok(b)) corrupt = true;
-  std::size_t bytes = rec::n ? rec::tab[0].size : 0; bool differ = false;
-  for (int i = 0; i < rec::n; ++i) if (rec::tab[i].size != bytes) differ = true;
+  std::size_t bytes = 0; bool differ = false, first = true;
+  for (int i = 0; i < rec::n; ++i) if (!rec::tab[i].foreign) { if (first) { bytes = rec::tab[i].size; first = false; } else if (rec::tab[i].size != bytes) differ = true; }
+  if (!v.is_pa) { int k = v.print_tokens(buf); emit("P" + std::to_string(k)); }
   rec::on = true; v.destroy(buf); rec::on = false;
   std::string d = "D" + std::to_string(bytes) + ":";
   for (int i = 0; i < rec::nreleased; ++i) { if (i) d += "."; d += rec::released[i] < 0 ? std::string("?") : std::to_string(rec::released[i]); }
   if (corrupt) d += "!corrupt";
   if (differ) d += "!chunksizes";
   if (rec::overflow) d += "!recorder-overflow";
-  for (int i = 0; i < rec::n; ++i) if ((std::uintptr_t)rec::tab[i].p % (std::size_t)v.geom[2]) { d += "!chunkmisaligned"; break; }
+  for (int i = 0; i < rec::n; ++i) if (!rec::tab[i].foreign && (std::uintptr_t)rec::tab[i].p % (std::size_t)v.geom[2]) { d += "!chunkmisaligned"; break; }
   emit(d);
+  g_live = nullptr;
 }
 
 // ------------------------------------------------------------------ malloc / aligned / debug runner
@@ -205,18 +298,48 @@ static bool writable(void* a) { return read(g_zero, a, 1) == 1; }
 struct SysVT {
   std::size_t sT, aT, promised;    // promised alignment
   void* (*alloc)(unsigned long long); void (*dealloc)(void*, unsigned long long);
+  std::string (*construct)(void*, unsigned char); std::string (*destruct)(void*);
+  void (*dealloc_wrongtype)(void*, unsigned long long);
+  void (*finish)(std::vector<LiveBlk>&);
 };
+// allocation through one instance, release through another one obtained by the converting constructor (stateless allocators compare equal)
+template<class A> static A make_other() {
+  using C = typename A::template rebind<char>::other;
+  if constexpr (std::is_constructible_v<A, const C&>) { C c; return A(c); }
+  else { A a; return A(a); }
+}
 template<class A> SysVT vt_sys(std::size_t promised) {
   using T = typename A::value_type;
   return SysVT{sizeof(T), alignof(T), promised,
-    [](unsigned long long n) -> void* { A a; return a.allocate(n); },
-    [](void* p, unsigned long long n) { A a; a.deallocate((T*)p, n); }};
+    [](unsigned long long n) -> void* { A a; return (g_alt++ & 1) ? a.allocate(n) : a.allocate(n, (const void*)g_foreign_buf); },
+    [](void* p, unsigned long long n) { A b = make_other<A>(); b.deallocate((T*)p, n); },
+    [](void* p, unsigned char tag) -> std::string { A a; return do_construct(a, (T*)p, tag); },
+    [](void* p) -> std::string { A a; return do_destroy(a, (T*)p); },
+    [](void* p, unsigned long long n) { typename A::template rebind<OtherType>::other w; w.deallocate((OtherType*)p, n); },
+    [](std::vector<LiveBlk>&) {}};
+}
+// DebugMemory::AllocationManager used directly: a manager of its own, deallocate<T>(p) with the default count, destructor at the end
+static Dune::DebugMemory::AllocationManager* g_man = nullptr;
+template<class T> SysVT vt_dman() {
+  return SysVT{sizeof(T), alignof(T), alignof(T),
+    [](unsigned long long n) -> void* { return g_man->allocate<T>(n); },
+    [](void* p, unsigned long long n) { if (n == 0) g_man->deallocate<T>((T*)p); else g_man->deallocate<T>((T*)p, n); },
+    [](void* p, unsigned char tag) -> std::string { ::new (p) T(tag); return ""; },
+    [](void* p) -> std::string { ((T*)p)->~T(); return ""; },
+    [](void* p, unsigned long long n) { g_man->deallocate<OtherType>((OtherType*)p, n); },
+    [](std::vector<LiveBlk>& live) {
+      std::vector<LiveBlk> l = live;
+      g_man->~AllocationManager();          // aborts ("lost allocations") when blocks are still in use
+      emit("D0");
+    }};
 }
 
 static const unsigned long long WRITE_LIMIT = 1ull << 22;
 
-static void run_sys(const SysVT& v, const std::vector<Op>& ops, bool debug, unsigned long long page) {
-  std::vector<LiveBlk> live; live.reserve(ops.size() + 1);
+// mode: 0 = malloc/aligned, 1 = DebugAllocator, 2 = AllocationManager (frees pass count 0 = default argument)
+static void run_sys(const SysVT& v, const std::vector<Op>& ops, int mode, unsigned long long page) {
+  const bool debug = mode != 0;
+  std::vector<LiveBlk> live, dead; live.reserve(ops.size() + 1); dead.reserve(ops.size() + 1);
   for (const Op& op : ops) {
     if (op.k == 'a') {
       void* p = nullptr; std::string tok;
@@ -240,38 +363,91 @@ static void run_sys(const SysVT& v, const std::vector<Op>& ops, bool debug, unsi
             if ((std::uintptr_t)end % page != 0 || readable(end) || writable(end)) tok += "!noguard";
           }
           LiveBlk b{(char*)p, bytes, next_tag(), op.n, w && bytes > 0};
-          if (b.tagged) std::memset(p, b.tag, bytes);
+          if (b.tagged) {
+            std::memset(p, b.tag, bytes);
+            if ((std::uintptr_t)p % v.aT == 0) {     // first and last element through construct() / address()
+              tok += v.construct(p, b.tag);
+              if (op.n > 1) tok += v.construct((char*)p + (op.n - 1) * v.sT, b.tag);
+            }
+          }
           live.push_back(b);
         } else {
           live.push_back(LiveBlk{(char*)p, 0, 0, op.n, false});
         }
       }
       emit(tok);
-    } else {
+    } else if (op.k == 'f' || op.k == 'z') {
       if (op.n >= live.size()) { emit("BADCASE"); continue; }
       LiveBlk b = live[op.n];
       std::string tok = "F";
       if (!tag_ok(b)) tok += "!corrupt";
+      if (b.tagged && (std::uintptr_t)b.p % v.aT == 0) { tok += v.destruct(b.p); if (b.n > 1) tok += v.destruct(b.p + (b.n - 1) * v.sT); }
       live.erase(live.begin() + op.n);
-      try { v.dealloc(b.p, b.n); } catch (...) { tok = "EXC-other"; }
+      unsigned long long cnt = op.k == 'z' ? op.m : (mode == 2 ? 0 : b.n);
+      try { v.dealloc(b.p, cnt); } catch (...) { tok = "EXC-other"; }
       if (debug && b.bytes && (readable(b.p) || readable(b.p + b.bytes - 1))) tok += "!stillmapped";
+      dead.push_back(b);
       emit(tok);
-    }
+    } else if (op.k == 'x' || op.k == 'y') {             // must abort ("memory block not found")
+      try { v.dealloc(op.k == 'x' ? nullptr : (void*)g_foreign_buf, 0); } catch (...) { }
+      emit("NOT-DETECTED");
+    } else if (op.k == 'b') {                            // wrong type / interior pointer / double free: must abort
+      if (op.m == 2) {
+        if (op.n >= dead.size()) { emit("BADCASE"); continue; }
+        try { v.dealloc(dead[op.n].p, mode == 2 ? 0 : dead[op.n].n); } catch (...) { }
+      } else {
+        if (op.n >= live.size()) { emit("BADCASE"); continue; }
+        LiveBlk b = live[op.n];
+        try { if (op.m == 0) v.dealloc_wrongtype(b.p, mode == 2 ? 0 : b.n); else v.dealloc(b.p + v.sT, mode == 2 ? 0 : b.n); } catch (...) { }
+      }
+      emit("NOT-DETECTED");
+    } else emit("BADCASE");
   }
   bool corrupt = false;
   for (auto& b : live) if (!tag_ok(b)) corrupt = true;
   if (corrupt) emit("END!corrupt");
+  v.finish(live);
+}
+
+// ------------------------------------------------------------------ plain API: max_size, comparison operators, rebind
+template<class X, class Y> static char eqc(const X& x, const Y& y) { return (x == y) ? '1' : '0'; }
+template<class X, class Y> static char nec(const X& x, const Y& y) { return (x != y) ? '1' : '0'; }
+template<class T, std::size_t s> static std::string api_pa() {
+  using A = Dune::PoolAllocator<T, s>;
+  A a, b; A c(a); Dune::PoolAllocator<OtherType, s> o; Dune::PoolAllocator<void, s> v1, v2;
+  std::string r = "max=" + std::to_string(a.max_size()) + " eq=";
+  // same object, two objects, copy, other value type, void/void same, void/void distinct, void/T, T/void
+  r += eqc(a, a); r += nec(a, a); r += eqc(a, b); r += nec(a, b); r += eqc(a, c); r += nec(a, c);
+  r += eqc(a, o); r += nec(a, o); r += eqc(v1, v1); r += nec(v1, v1); r += eqc(v1, v2); r += nec(v1, v2);
+  r += eqc(v1, a); r += nec(v1, a); r += eqc(a, v1); r += nec(a, v1);
+  bool rb = std::is_same_v<typename A::template rebind<OtherType>::other, Dune::PoolAllocator<OtherType, s>>
+         && std::is_same_v<typename Dune::PoolAllocator<void, s>::template rebind<T>::other, A>
+         && std::is_same_v<typename A::PoolType, Dune::Pool<T, s * sizeof(T)>> && A::size == (int)(s * sizeof(T));
+  r += std::string(" rebind=") + (rb ? "1" : "0");
+  return r;
+}
+template<class A, class Expected> static std::string api_sys() {
+  using T = typename A::value_type;
+  A a, b;
+  std::string r = "max=" + std::to_string((unsigned long long)a.max_size()) + " eq=";
+  r += eqc(a, b); r += nec(a, b); r += eqc(a, a); r += nec(a, a);
+  bool rb = std::is_same_v<typename A::template rebind<OtherType>::other, Expected>;
+  r += std::string(" rebind=") + (rb ? "1" : "0");
+  (void)sizeof(T);
+  return r;
 }
 
 // ------------------------------------------------------------------ debugalign.hh: AlignedBase placement new check
 static int g_viol = 0;
-template<std::size_t A> static bool placement_violates(void* p) {
+// mode 0: operator new, recording handler; 1: operator new[], recording handler; 2: operator new with the default handler (aborts)
+template<std::size_t A> static bool placement_violates(void* p, int mode) {
   g_viol = 0;
+  using AN = Dune::AlignedNumber<double, A>;
+  if (mode == 2) { AN* q = new (p) AN(1.0); (void)q; return false; }
   Dune::ViolatedAlignmentHandler old = Dune::violatedAlignmentHandler();
   Dune::violatedAlignmentHandler() = [](const char*, std::size_t, const void*) { ++g_viol; };
-  using AN = Dune::AlignedNumber<double, A>;
-  AN* q = new (p) AN(1.0);
-  (void)q;
+  if (mode == 0) { AN* q = new (p) AN(Dune::aligned<A>(1.0)); (void)q; if (double(*q) != 1.0) ++g_viol; }
+  else { AN* q = new (p) AN[2]; (void)q; }
   Dune::violatedAlignmentHandler() = old;
   return g_viol != 0;
 }
@@ -279,7 +455,12 @@ template<std::size_t A> static bool placement_violates(void* p) {
 // ------------------------------------------------------------------ dispatch
 static std::vector<Op> parse_ops(std::istringstream& is) {
   std::vector<Op> ops; std::string t;
-  while (is >> t) { Op o; o.k = t[0]; o.n = std::strtoull(t.c_str() + 1, nullptr, 10); ops.push_back(o); }
+  while (is >> t) {
+    Op o; o.k = t[0]; o.m = 0; char* e = nullptr;
+    o.n = std::strtoull(t.c_str() + 1, &e, 10);
+    if (e && *e == '.') o.m = std::strtoull(e + 1, nullptr, 10);
+    ops.push_back(o);
+  }
   return ops;
 }
 
@@ -292,14 +473,28 @@ static void run_case(const std::string& line) {
     return;
   }
   if (kind == "alignedbase") {
-    unsigned long long a, off; is >> a >> off;
+    unsigned long long a, off; int mode = 0; is >> a >> off >> mode;
     alignas(4096) static char buf[16384];
     void* p = buf + off; bool v;
-    if (a == 16) v = placement_violates<16>(p); else if (a == 32) v = placement_violates<32>(p);
-    else if (a == 64) v = placement_violates<64>(p); else if (a == 128) v = placement_violates<128>(p);
+    if (a == 16) v = placement_violates<16>(p, mode); else if (a == 32) v = placement_violates<32>(p, mode);
+    else if (a == 64) v = placement_violates<64>(p, mode); else if (a == 128) v = placement_violates<128>(p, mode);
     else { emit("NO-SUCH-CONFIG"); return; }
     emit(v ? "violated" : "placed");
     return;
+  }
+  if (kind == "api") {
+    std::string what; unsigned long long sT, aT; long long s = 0; is >> what >> sT >> aT >> s;
+#define POOL(ST, AT, S)
+#define PA(ST, AT, S) if (what == "pa" && sT == ST && aT == AT && s == S) { emit(api_pa<Blob<ST, AT>, S>()); return; }
+#define SYS(ST, AT) if (what == "malloc" && sT == ST && aT == AT) { emit(api_sys<Dune::MallocAllocator<Blob<ST, AT>>, Dune::MallocAllocator<OtherType>>()); return; } \
+                    if (what == "debug" && sT == ST && aT == AT) { emit(api_sys<Dune::DebugAllocator<Blob<ST, AT>>, Dune::DebugAllocator<OtherType>>()); return; }
+#define ALIGNED(ST, AT, AL) if (what == "aligned" && sT == ST && aT == AT && s == AL) { emit(api_sys<Dune::AlignedAllocator<Blob<ST, AT>, AL>, Dune::AlignedAllocator<OtherType, AL>>()); return; }
+#include CONFIGS_INC
+#undef POOL
+#undef PA
+#undef SYS
+#undef ALIGNED
+    emit("NO-SUCH-CONFIG"); return;
   }
   if (kind == "pool" || kind == "pa") {
     unsigned long long sT, aT, s; is >> sT >> aT >> s;
@@ -315,19 +510,28 @@ static void run_case(const std::string& line) {
 #undef ALIGNED
     emit("NO-SUCH-CONFIG"); return;
   }
-  if (kind == "malloc" || kind == "debug" || kind == "aligned") {
+  if (kind == "malloc" || kind == "debug" || kind == "aligned" || kind == "dman" || kind == "debugkeep") {
     unsigned long long page = 0, sT, aT; long long al = 0;
-    if (kind == "debug") is >> page;
+    if (kind == "debug" || kind == "dman" || kind == "debugkeep") is >> page;
     is >> sT >> aT;
     if (kind == "aligned") is >> al;
     std::vector<Op> ops = parse_ops(is);
-    if (kind == "debug" && (long long)page != (long long)Dune::DebugMemory::page_size) { emit("PAGE-SIZE-MISMATCH"); return; }
+    if (page && (long long)page != (long long)Dune::DebugMemory::page_size) { emit("PAGE-SIZE-MISMATCH"); return; }
+#if DEBUG_ALLOCATOR_KEEP
+    if (kind != "debugkeep") { emit("NO-SUCH-CONFIG"); return; }
+    kind = "debug";
+#else
+    if (kind == "debugkeep") { emit("NO-SUCH-CONFIG"); return; }
+#endif
+    alignas(64) static char manbuf[sizeof(Dune::DebugMemory::AllocationManager)];
+    if (kind == "dman") g_man = new (manbuf) Dune::DebugMemory::AllocationManager;
 #define POOL(ST, AT, S)
 #define PA(ST, AT, S)
-#define SYS(ST, AT) if (kind == "malloc" && sT == ST && aT == AT) { run_sys(vt_sys<Dune::MallocAllocator<Blob<ST, AT>>>(AT), ops, false, 0); return; } \
-                    if (kind == "debug" && sT == ST && aT == AT) { run_sys(vt_sys<Dune::DebugAllocator<Blob<ST, AT>>>(AT), ops, true, page); return; }
+#define SYS(ST, AT) if (kind == "malloc" && sT == ST && aT == AT) { run_sys(vt_sys<Dune::MallocAllocator<Blob<ST, AT>>>(AT), ops, 0, 0); return; } \
+                    if (kind == "debug" && sT == ST && aT == AT) { run_sys(vt_sys<Dune::DebugAllocator<Blob<ST, AT>>>(AT), ops, 1, page); return; } \
+                    if (kind == "dman" && sT == ST && aT == AT) { run_sys(vt_dman<Blob<ST, AT>>(), ops, 2, page); return; }
 #define ALIGNED(ST, AT, AL) if (kind == "aligned" && sT == ST && aT == AT && al == AL) { \
-      using A = Dune::AlignedAllocator<Blob<ST, AT>, AL>; run_sys(vt_sys<A>((std::size_t)A::alignment), ops, false, 0); return; }
+      using A = Dune::AlignedAllocator<Blob<ST, AT>, AL>; run_sys(vt_sys<A>((std::size_t)A::alignment), ops, 0, 0); return; }
 #include CONFIGS_INC
 #undef POOL
 #undef PA
@@ -370,7 +574,8 @@ int main(int argc, char** argv) {
       if (pos != std::string::npos) {
         std::string m = err.substr(pos + 19); m = m.substr(0, m.find('\n'));
         tok = "ABORT(" + m + ")";
-      } else if (WIFSIGNALED(st)) tok = "CRASH(sig" + std::to_string(WTERMSIG(st)) + ")";
+      } else if (err.find("Detected invalid alignment") != std::string::npos) tok = "ABORT(invalid_alignment)";
+      else if (WIFSIGNALED(st)) tok = "CRASH(sig" + std::to_string(WTERMSIG(st)) + ")";
       else {
         tok = "CRASH(exit" + std::to_string(WEXITSTATUS(st)) + ")";
         std::size_t q = err.find("ERROR: ");
